@@ -156,9 +156,10 @@ func (m vKindMatcher) Match(cx *Connection) (bool, error) {
 }
 
 type vScen struct {
-	conns []*vScConn
-	byID  map[int]*vScConn // by small id (1..n, what the model sees)
-	byTag map[int]*vScConn // by the run-wide unique tag the stream carries
+	release chan struct{} // closed by the run when held ('H') connections may finish
+	conns   []*vScConn
+	byID    map[int]*vScConn // by small id (1..n, what the model sees)
+	byTag   map[int]*vScConn // by the run-wide unique tag the stream carries
 }
 
 var vC13Tag atomic.Int32
@@ -211,7 +212,7 @@ func (k *vScConn) outcome() string {
 	switch k.kind {
 	case 'F', 'N', 'S', 'L':
 		return "Hijack"
-	case 'T':
+	case 'T', 'H':
 		return "Consumed"
 	}
 	return "Rejected"
@@ -231,6 +232,15 @@ func vC13Routes(sc *vScen) RouteList {
 		}
 		return nil
 	})
+	// a consumed connection that is still being served (think of a proxied session) when the
+	// listener is closed
+	held := NextHandlerFunc(func(cx *Connection, _ Handler) error {
+		select {
+		case <-sc.release:
+		case <-time.After(8 * time.Second):
+		}
+		return nil
+	})
 	reject := NextHandlerFunc(func(cx *Connection, _ Handler) error { return errors.New("verif: rejected") })
 	nonTerminal := NextHandlerFunc(func(cx *Connection, next Handler) error {
 		if _, err := io.ReadFull(cx, make([]byte, vC13Prefix)); err != nil {
@@ -244,7 +254,7 @@ func vC13Routes(sc *vScen) RouteList {
 		return next.Handle(cx)
 	})
 	never := NextHandlerFunc(func(cx *Connection, next Handler) error { return errors.New("verif: unreachable") })
-	return RouteList{mk('T', terminal), mk('R', reject), mk('N', nonTerminal), mk('S', tlsLike), mk('E', never)}
+	return RouteList{mk('T', terminal), mk('R', reject), mk('N', nonTerminal), mk('S', tlsLike), mk('E', never), mk('H', held)}
 }
 
 // ---- scenario generation ------------------------------------------------------------------------
@@ -257,8 +267,8 @@ func (sc *vScen) add(k *vScConn) {
 
 func vC13Gen(r *vRng) *vScen {
 	n := 2 + r.Intn(9)
-	kinds := []byte{'F', 'F', 'F', 'T', 'R', 'N', 'S', 'E', 'L', 'X', 'Z', 'F', 'T', 'N'}
-	sc := &vScen{byID: map[int]*vScConn{}, byTag: map[int]*vScConn{}}
+	kinds := []byte{'F', 'F', 'F', 'T', 'R', 'N', 'S', 'E', 'L', 'X', 'Z', 'F', 'T', 'N', 'H'}
+	sc := &vScen{byID: map[int]*vScConn{}, byTag: map[int]*vScConn{}, release: make(chan struct{})}
 	for i := 0; i < n; i++ {
 		k := &vScConn{id: i + 1, tag: int(vC13Tag.Add(1)) & 0x7fff, kind: kinds[r.Intn(len(kinds))]}
 		ln := 8 + r.Intn(120)
@@ -437,6 +447,9 @@ func vC13Run(sc *vScen, pl vC13Plan) *vC13Result {
 			switch e.k {
 			case "Arr":
 				arr++
+				if k := sc.byID[e.id]; k != nil && k.kind == 'H' {
+					seen[e.id] = true // stays open until released
+				}
 			case "Del", "Cls":
 				seen[e.id] = true
 			}
@@ -483,12 +496,25 @@ func vC13Run(sc *vScen, pl vC13Plan) *vC13Result {
 		}
 		ch := make(chan ar, 1)
 		go func() { c, err := ln.Accept(); ch <- ar{c, err} }()
-		select {
-		case r := <-ch:
-			return r.c, r.err, true
-		case <-time.After(5 * time.Second):
-			return nil, nil, false
+		// before Close a starving consumer is given up after 3 s; after Close Accept has to report
+		// closure promptly (2 s is three orders of magnitude above what it takes), no matter
+		// whether consumed connections are still being served
+		for waited := 0; waited < 3000; waited += 50 {
+			select {
+			case r := <-ch:
+				return r.c, r.err, true
+			case <-time.After(50 * time.Millisecond):
+			}
+			if closeCalled.Load() {
+				select {
+				case r := <-ch:
+					return r.c, r.err, true
+				case <-time.After(2 * time.Second):
+					return nil, nil, false
+				}
+			}
 		}
+		return nil, nil, false
 	}
 	handleAccepted := func(c net.Conn) {
 		var cx *Connection
@@ -558,18 +584,19 @@ func vC13Run(sc *vScen, pl vC13Plan) *vC13Result {
 	}
 	doClose()
 
+	close(sc.release)
 	// A server stops calling Accept at the first ErrClosed.  From here on nobody receives from the
 	// wrapper any more: it has to shut down by itself (the loop drains and closes what is pending,
 	// every handler returns, the waiter closes the channel).
 	deadline := time.Now().Add(5 * time.Second)
-	for !res.blockedAccept && time.Now().Before(deadline) {
+	for time.Now().Before(deadline) {
 		if len(vWrapperGoroutines()) == 0 {
 			res.quiesced = true
 			break
 		}
 		time.Sleep(time.Millisecond)
 	}
-	if res.quiesced {
+	if res.quiesced && !res.blockedAccept {
 		for i := 0; i < 3; i++ {
 			c, err, ok := acceptOne()
 			if !ok {
@@ -720,7 +747,7 @@ func vC13Oracle(out *vOut, sc *vScen, pl vC13Plan, res *vC13Result) (shape strin
 		out.Fail("C13:handover:foreign-connection", "Accept returned a connection that is not one of the accepted ones", in(nil))
 	}
 	if res.blockedAccept {
-		out.Fail("C13:close:accept-after-close", "Accept did not return within 5 s after Close", in(nil))
+		out.Fail("C13:close:accept-after-close", "Accept did not return within 2 s after Close (it has to report closure even while consumed connections are still being served)", in(nil))
 	}
 	if res.afterQuiesceConn {
 		out.Fail("C13:close:accept-after-close", "Accept returned a connection after the wrapper had shut down (channel closed)", in(nil))
@@ -760,7 +787,7 @@ func vC13Plan1(r *vRng) vC13Plan {
 // the deterministic overlap: A falls through and is accepted but read late; B, C go through
 // matching afterwards on the same P
 func vC13Overlap() (*vScen, vC13Plan) {
-	sc := &vScen{byID: map[int]*vScConn{}, byTag: map[int]*vScConn{}}
+	sc := &vScen{byID: map[int]*vScConn{}, byTag: map[int]*vScConn{}, release: make(chan struct{})}
 	for i := 0; i < 4; i++ {
 		k := &vScConn{id: i + 1, tag: int(vC13Tag.Add(1)) & 0x7fff, kind: 'F', startUs: i * 1500}
 		k.stream = vC13Stream('F', k.tag, 64)
@@ -768,6 +795,15 @@ func vC13Overlap() (*vScen, vC13Plan) {
 		sc.add(k)
 	}
 	return sc, vC13Plan{procs: 1, closeAfter: -1, readLate: true, acceptDelay: []int{0}}
+}
+
+// the same with a first connection whose first prefetch fills the pooled chunk exactly (len == cap)
+func vC13OverlapBoundary() (*vScen, vC13Plan) {
+	sc, pl := vC13Overlap()
+	k := sc.conns[0]
+	k.stream = vC13Stream('F', k.tag, prefetchChunkSize+300)
+	k.segs = []int{len(k.stream)}
+	return sc, pl
 }
 
 func TestVerifC13(t *testing.T) {
@@ -791,6 +827,8 @@ func TestVerifC13(t *testing.T) {
 	}
 	sc, pl := vC13Overlap()
 	run(sc, pl, "overlap")
+	sc, pl = vC13OverlapBoundary()
+	run(sc, pl, "overlap-boundary")
 	for i := 0; i < n; i++ {
 		sc := vC13Gen(r)
 		pl := vC13Plan1(r)
